@@ -3,7 +3,7 @@
 # validates the seeded change in a scratch worktree (applies; suite unchanged: 223 passed / 1 failed test_basic;
 # demo fails with the patch, passes without) and, when confirmed, copies it to /verif/seeded/<ID>; then runs the
 # property's own check against a scratch copy with the patch.
-ID="$1"; D=/tmp/wt/out2/$ID; P=${ID%%_*}
+ID="$1"; D=${OUTDIR:-/tmp/wt/out2}/$ID; P=${ID%%_*}
 [ -f "$D/patch.diff" ] || { echo "$ID: no patch"; exit 1; }
 W=/tmp/wt/val_$ID
 git -C /repo worktree add -q --detach "$W" HEAD 2>/dev/null || { echo "$ID worktree-failed"; exit 1; }
